@@ -113,6 +113,10 @@ fn misbehave(b: &[u8]) -> Result<(), String> {
         }
         Some(b'S') => Err(format!("{}", deep(0, [0u8; 512]))),
         Some(b'E') => Err("selftest error".into()),
+        // never returns (timeout handling of the libFuzzer driver script)
+        Some(b'H') => loop {
+            std::thread::sleep(std::time::Duration::from_millis(10));
+        },
         _ => Ok(()),
     }
 }
@@ -531,24 +535,49 @@ pub fn normalize_site(file: &str, line: u32) -> String {
     format!("{}:{}", f, line)
 }
 
+/// Record a panic (site, message, counter) without printing it; the body of the worker's
+/// panic hook, also used by the hook of the libFuzzer targets (`crate::fuzz`).
+pub fn record_panic(info: &std::panic::PanicHookInfo<'_>) {
+    let site = info.location().map(|l| normalize_site(l.file(), l.line())).unwrap_or_default();
+    let msg = if let Some(s) = info.payload().downcast_ref::<&str>() {
+        s.to_string()
+    } else if let Some(s) = info.payload().downcast_ref::<String>() {
+        s.clone()
+    } else {
+        "panic".to_string()
+    };
+    if let Ok(mut l) = LAST_SITE.lock() {
+        *l = site;
+    }
+    if let Ok(mut l) = LAST_MSG.lock() {
+        *l = msg.chars().take(300).collect();
+    }
+    PANICS.fetch_add(1, Ordering::SeqCst);
+}
+
 fn install_worker_hook() {
-    std::panic::set_hook(Box::new(|info| {
-        let site = info.location().map(|l| normalize_site(l.file(), l.line())).unwrap_or_default();
-        let msg = if let Some(s) = info.payload().downcast_ref::<&str>() {
-            s.to_string()
-        } else if let Some(s) = info.payload().downcast_ref::<String>() {
-            s.clone()
-        } else {
-            "panic".to_string()
-        };
-        if let Ok(mut l) = LAST_SITE.lock() {
-            *l = site;
-        }
-        if let Ok(mut l) = LAST_MSG.lock() {
-            *l = msg.chars().take(300).collect();
-        }
-        PANICS.fetch_add(1, Ordering::SeqCst);
-    }));
+    std::panic::set_hook(Box::new(|info| record_panic(info)));
+}
+
+/// One decoder call in *this* process, bracketed exactly like a worker request (allocation
+/// guard `64 MiB + 16 x input`, `catch_unwind`, contained-panic detection).  Needs the
+/// counting allocator as global allocator and a hook that calls [`record_panic`].  An
+/// allocation trip aborts the process (see `alloc_count`), so it never shows up as an
+/// `Outcome` here: the libFuzzer targets rely on the abort being recorded as a crash.
+pub fn run_in_process(entry: &Entry, payload: &[u8]) -> Outcome {
+    let before = PANICS.load(Ordering::SeqCst);
+    alloc_count::guard_begin(BUDGET_BASE + BUDGET_FACTOR * payload.len());
+    let r = std::panic::catch_unwind(std::panic::AssertUnwindSafe(|| (entry.run)(payload)));
+    let _peak = alloc_count::guard_end();
+    let panicked = PANICS.load(Ordering::SeqCst) > before;
+    let site = || LAST_SITE.lock().map(|s| s.clone()).unwrap_or_default();
+    let pmsg = || LAST_MSG.lock().map(|s| s.clone()).unwrap_or_default();
+    match r {
+        Err(_) => Outcome::Panic { site: site(), msg: pmsg() },
+        Ok(Ok(())) if !panicked => Outcome::Value,
+        Ok(Err(e)) if !panicked => Outcome::Error(e.chars().take(200).collect()),
+        Ok(_) => Outcome::Contained { site: site(), msg: pmsg() },
+    }
 }
 
 fn read_frame(r: &mut impl Read) -> Option<Vec<u8>> {
@@ -1109,6 +1138,39 @@ pub fn check(ctx: &Ctx, c: &FuzzCase) -> (CaseInfo, CheckResult) {
 }
 
 // ---------------------------------------------------------------------------
+// inputs found by the coverage-guided tier (`tools/fuzz.sh C15`, target `decode`)
+// ---------------------------------------------------------------------------
+
+/// Sub-check name of replay files converted from libFuzzer artifacts.
+pub const FUZZ_SUB: &str = "fuzz/decode";
+
+/// `{ "entry": "decode/WriteEvent", "bytes_hex": "0000" }`: the bytes handed to one entry point.
+#[derive(Clone, Debug, Serialize, Deserialize, PartialEq, Eq, Hash)]
+pub struct FuzzDecodeCase {
+    pub entry: String,
+    pub bytes_hex: String,
+}
+
+/// Re-execution of a fuzzer input through the decoder worker (no libFuzzer involved).
+pub fn check_fuzz_decode(ctx: &Ctx, c: &FuzzDecodeCase) -> (CaseInfo, CheckResult) {
+    let mut info = CaseInfo::default();
+    let Some((idx, entry)) = ctx.entry(&c.entry) else {
+        return (info, Err(Failure::new("harness", format!("unknown entry {}", c.entry))));
+    };
+    let input = match hex::decode(&c.bytes_hex) {
+        Ok(b) => b,
+        Err(e) => return (info, Err(Failure::new("harness", format!("bad bytes_hex: {e}")))),
+    };
+    info.class(format!("entry:{}", entry.name));
+    info.class("input:fuzzer");
+    info.nontrivial = true;
+    info.inner_evals = 1;
+    let o = exec(idx, &input);
+    let r = judge(entry, &input, &o, &mut info);
+    (info, r)
+}
+
+// ---------------------------------------------------------------------------
 // exhaustive truncation of valid encodings
 // ---------------------------------------------------------------------------
 
@@ -1365,7 +1427,12 @@ fn run_shard(shard: &Shard, rep: &mut Report) {
 
 fn replay(_shard: &Shard, sub: &str, case: &Value) -> CheckResult {
     let ctx = Ctx::new();
-    let r = if sub.starts_with("truncate/") {
+    let r = if sub == FUZZ_SUB {
+        match from_case::<FuzzDecodeCase>(case) {
+            Ok(c) => check_fuzz_decode(&ctx, &c).1,
+            Err(e) => Err(Failure::new("harness", e)),
+        }
+    } else if sub.starts_with("truncate/") {
         match from_case::<TruncCase>(case) {
             Ok(c) => {
                 let mut out = Ok(());
